@@ -23,7 +23,9 @@ import (
 	"sync"
 	"time"
 
+	"verif/internal/c18"
 	"verif/internal/evid"
+	"verif/internal/l2"
 )
 
 type unit struct {
@@ -35,6 +37,13 @@ type unit struct {
 
 func main() {
 	r := evid.New("C18", "other")
+	// The late-answer family (internal/c18) runs in this program itself, which
+	// ./check builds with -race: one child process per scenario. Scenarios
+	// 0..LateFixed-1 are fixed, the rest seeded.
+	nLate := r.Pick(6, 40)
+	if l2.IsChild() {
+		l2.RunScenarios(r, nLate, 300*time.Second, c18.LateAnswerScenario)
+	}
 	root := evid.Root()
 	scratch := os.Getenv("VERIF_SCRATCH")
 	if scratch == "" {
@@ -46,6 +55,31 @@ func main() {
 	if b := os.Getenv("VERIF_BIN"); b != "" {
 		binDir = b
 	}
+
+	// The late-answer scenarios mostly wait on the client's 2 s query worker
+	// timeout: they run next to the borrowed workloads (and their builds), on a
+	// pool of their own. Their race reports go to race-logs/late.<pid>.
+	lateDone := make(chan struct{})
+	lateStart := time.Now()
+	var lateWall time.Duration
+	// (Inherited by the scenario children; the borrowed workloads below are
+	// given their own GORACE, which overrides this one.)
+	_ = os.Setenv("GORACE", "halt_on_error=0 history_size=4 log_path="+filepath.Join(logDir, "late"))
+	go func() {
+		defer close(lateDone)
+		if only := os.Getenv("VERIF_C18_UNITS"); only != "" && only != "late" && only != "late0" {
+			return
+		}
+		ks := make([]int, nLate)
+		for i := range ks {
+			ks[i] = i
+		}
+		if os.Getenv("VERIF_C18_UNITS") == "late0" {
+			ks = ks[:1]
+		}
+		l2.RunScenarioList(r, ks, 8, 300*time.Second, nil)
+		lateWall = time.Since(lateStart)
+	}()
 
 	quick := r.Quick()
 	units := []unit{
@@ -70,6 +104,21 @@ func main() {
 		}
 	}
 
+	// Development aid: VERIF_C18_UNITS=late (late0) runs the late-answer family
+	// (its first fixed scenario) alone, VERIF_C18_UNITS=c04,c06 only those
+	// borrowed workloads. Registered commands never set it.
+	if only := os.Getenv("VERIF_C18_UNITS"); only != "" {
+		var keep []unit
+		for _, u := range units {
+			for _, id := range strings.Split(only, ",") {
+				if id == u.id {
+					keep = append(keep, u)
+				}
+			}
+		}
+		units = keep
+	}
+
 	// Build every workload with the race detector (the build cache makes the
 	// instrumented dependencies a one-off cost).
 	var built []unit
@@ -88,7 +137,7 @@ func main() {
 		}
 		built = append(built, u)
 	}
-	if len(built) == 0 {
+	if len(built) == 0 && os.Getenv("VERIF_C18_UNITS") == "" {
 		fmt.Println("C18: no workload could be built with -race")
 		os.Exit(2)
 	}
@@ -142,6 +191,10 @@ func main() {
 		}(i, u)
 	}
 	wg.Wait()
+	unitsWall := time.Since(lateStart)
+	<-lateDone
+	r.Count("wall_s_borrowed_workloads", int64(unitsWall.Seconds()))
+	r.Count("wall_s_late_answer_family", int64(lateWall.Seconds()))
 
 	// Collect the reports.
 	files, _ := filepath.Glob(filepath.Join(logDir, "*"))
@@ -214,9 +267,11 @@ func main() {
 		names = append(names, u.id+"@"+u.tier+"x"+u.scale)
 	}
 	r.Set("explanation", "Go race detector (happens-before) over the race-instrumented workloads "+strings.Join(names, ", ")+
-		"; L2 workloads additionally run 9 goroutines calling BestBlock, IsCurrent, GetBlockHash/Header/Height, Peers, ConnectedCount, NetTotals, IsBanned, BanPeer/UnbanPeer, GetCFilter, GetBlock, Subscribe/Cancel in a loop. A report counts when either stack has a github.com/lightninglabs/neutrino frame; reports are deduplicated by the pair of first client frames. Sound for what it reports, silent about paths and interleavings not executed.")
-	r.Rule("each race-instrumented workload run is one evaluation; distinct = workloads")
+		", and over the late-answer scenarios of this program itself (built with -race by ./check)"+
+		"; the borrowed L2 workloads additionally run 9 goroutines calling BestBlock, IsCurrent, GetBlockHash/Header/Height, Peers, ConnectedCount, NetTotals, IsBanned, BanPeer/UnbanPeer, GetCFilter, GetBlock, Subscribe/Cancel in a loop. A report counts when either stack has a github.com/lightninglabs/neutrino frame; reports are deduplicated by the pair of first client frames. Sound for what it reports, silent about paths and interleavings not executed.")
+	r.Rule("each race-instrumented borrowed workload run is one evaluation (fingerprint race-run|<id>). LATE-ANSWER family (internal/c18; scenarios 0-2 fixed, the rest seeded; 6 quick / 40 thorough, one race-instrumented child process each, run next to the borrowed workloads): the complete ChainService syncs a generated chain from 2-4 simulated peers and then makes rounds of concurrent GetBlock (default and base encoding) / GetCFilter (single, OptimisticBatch, OptimisticReverseBatch with MaxBatchSize) calls for blocks not fetched before; a director keyed by REQUEST makes whichever peer is asked first for a request the plan marks late hold its answer for 2.3-3 s (past the 2 s query worker timeout, so the work manager hands the request to another peer; a batched answer may send a prefix at once) and then send it, and makes the peer asked next answer at that moment plus a seeded offset of -60..+60 ms, so that the answer of the peer the client gave up on arrives just before, with, or just after the answer to the retried request, several times per scenario; requests not marked late are answered after 0.1-0.35 s so that the calls of a round spread over all workers. Chains above 2000 blocks do the same to the checkpointed getcfheaders requests of the filter-header sync. Fixed scenarios: 0 = GetBlock only (4 peers, 5 rounds, 10 late answers), 1 = GetCFilter single/forward/reverse late next to GetBlock calls (3 peers), 2 = late cfheaders during sync of 2100 blocks, then mixed rounds (2 peers). Fingerprints late-answer|<plan>|peers|kinds|orders and marks late-answer|<call kind>|late-answer-{before,after}-retry-answer come from the event log (the held answer was sent after the client had asked another peer); non-trivial = at least one such late answer. The family has no oracle of its own: its race reports are collected like those of every other workload (workload id 'late')")
 	r.Sample(map[string]any{"workloads": names, "race_log_files": len(files), "reports": len(reports)})
+	r.Set("borrowed_workloads", names) // (the sample slots may be taken by the late-answer scenarios)
 	r.Assume("checkptr is enabled by -race as well; reports entirely inside harness code mean a broken harness (exit 2), reports entirely inside third-party packages are counted but not charged to the client")
 	if harness > 0 {
 		for _, rp := range reports {
